@@ -198,12 +198,25 @@ def _check(case, handles):
     n = len(model)
     sg = lib("load", SystemGro, source())
 
+    edits = [0]
+
     def same(res, k, what):
         got = residue_records(res)
         if got != model[k]:
             raise PropertyViolation("access", "%s: residue %d returned %r..., file has %r... (%d vs %d atoms, layout %s)"
                                     % (what, k, got[:2], model[k][:2], len(got), len(model[k]), case["layout"]),
                                     cls="access:" + case["layout"])
+        if (k + len(what)) % 3 == 0:
+            # what was handed out belongs to the caller: it is edited in place (moved, renumbered) - the file, and
+            # what the next access returns, stay what they are
+            try:
+                with env.quiet():
+                    res.atoms_positions = res.atoms_positions + 5.0
+                    res.atoms_ids = [i + 7 for i in res.atoms_ids]
+                    res.resid = res.resid + 1
+                edits[0] += 1
+            except Exception:      # noqa: BLE001   (the setters are C18's subject)
+                pass
     if lib("len", len, sg) != n:
         raise PropertyViolation("count", "len()=%d, the file has %d residues (layout %s)" % (len(sg), n, case["layout"]),
                                 cls="count:" + case["layout"])
@@ -246,10 +259,12 @@ def _check(case, handles):
         if kind == "index":
             k = op[1] % n
             same(lib("index", sg.__getitem__, k), k, "step %d sg[%d]" % (step, k))
+            same(lib("index", sg.__getitem__, k), k, "step %d sg[%d] again" % (step, k))
             backward |= partial and last_pos is not None and k < last_pos
         elif kind == "neg":
             k = op[1] % n
             same(lib("index", sg.__getitem__, k - n), k, "step %d sg[%d]" % (step, k - n))
+            same(lib("index", sg.__getitem__, k - n), k, "step %d sg[%d] once more" % (step, k - n))
             backward |= partial and last_pos is not None and k < last_pos
         elif kind == "slice":
             edge = [-n - 1, -n, -n + 1, -1, 0, 1, n - 1, n, n + 1]
